@@ -8,16 +8,20 @@
 //	<out>/Exprs.lean   pure predicate / arithmetic functions translated to Lean (Nat / Bool)
 //	<out>/Lengths.lean the length calculators and other straight-line integer functions, translated
 //	                   statement by statement over the model's structures (lengths.go)
-//	<out>/Facts.lean   structural facts: package-level vars, NextBytesNoCopy result uses,
-//	                   order of tests in packetAccumulator.add, writers returning the batch latch
+//	<out>/Facts.lean   structural facts: the package-level variables that are written (tables.go; the full
+//	                   list is informative), NextBytesNoCopy result uses, the tests of packetAccumulator.add per
+//	                   if statement in source order, writers returning the batch latch
 //	<out>/facts.json   the same facts for the evidence files
 //
 // The translation is meant to be insensitive to behaviour-preserving refactorings of /repo as far as
 // that is possible without guessing: parameter and receiver names are read from the AST, local
 // variables are substituted, guard clauses / switches / single expressions give the same kind of
 // term, and a call of another function of the package is followed (pure.go for CRC.lean and
-// Exprs.lean, inlineTerm in lengths.go for Lengths.lean).  What the generated definitions MEAN is
-// checked by the tie theorems in lean/Astits/Props, whose proofs do not depend on their shape.
+// Exprs.lean, inlineTerm in lengths.go for Lengths.lean); a lookup in a package-level table that nothing
+// writes (tables.go) is expanded into a conditional chain, provided the index is shown to be in range;
+// comparisons of string constants and of byte slices with literals are evaluated or expanded (exprs.go,
+// pure.go).  What the generated definitions MEAN is checked by the tie theorems in lean/Astits/Props, whose
+// proofs do not depend on their shape.
 package main
 
 import (
@@ -44,6 +48,13 @@ type pkgInfo struct {
 	// for lengths.go: type declarations and the declared types of typed constants
 	types      map[string]ast.Expr
 	constTypes map[string]ast.Expr
+	// standard-library packages imported under their own name by some file of the package
+	imports map[string]bool
+	// for tables.go: declared types of the package-level variables, their declarations, and the caches
+	varTypes map[string]ast.Expr
+	pkgSpecs map[*ast.ValueSpec]bool
+	written  []varWrite
+	tables   map[string]*constTable
 }
 
 func die(format string, a ...interface{}) {
@@ -53,7 +64,8 @@ func die(format string, a ...interface{}) {
 
 func load(dir string) *pkgInfo {
 	p := &pkgInfo{files: map[string]*ast.File{}, funcs: map[string]*ast.FuncDecl{}, consts: map[string]ast.Expr{}, varVal: map[string]ast.Expr{},
-		types: map[string]ast.Expr{}, constTypes: map[string]ast.Expr{}}
+		types: map[string]ast.Expr{}, constTypes: map[string]ast.Expr{}, imports: map[string]bool{},
+		varTypes: map[string]ast.Expr{}, pkgSpecs: map[*ast.ValueSpec]bool{}, tables: map[string]*constTable{}}
 	names, _ := filepath.Glob(filepath.Join(dir, "*.go"))
 	sort.Strings(names)
 	for _, n := range names {
@@ -76,6 +88,11 @@ func load(dir string) *pkgInfo {
 			continue
 		}
 		p.files[filepath.Base(n)] = f
+		for _, im := range f.Imports {
+			if path, err := strconv.Unquote(im.Path.Value); err == nil && (im.Name == nil || im.Name.Name == filepath.Base(path)) {
+				p.imports[path] = true
+			}
+		}
 		for _, d := range f.Decls {
 			switch d := d.(type) {
 			case *ast.FuncDecl:
@@ -110,6 +127,8 @@ func load(dir string) *pkgInfo {
 							}
 						} else if d.Tok == token.VAR {
 							p.vars = append(p.vars, nm.Name)
+							p.varTypes[nm.Name] = vs.Type
+							p.pkgSpecs[vs] = true
 							if i < len(vs.Values) {
 								p.varVal[nm.Name] = vs.Values[i]
 							}
@@ -124,6 +143,15 @@ func load(dir string) *pkgInfo {
 }
 
 // ---- constant evaluation (integers only) ----
+
+// the integer limits of package math.  Like an unsigned literal above 2^63, MaxUint64 is returned as the
+// int64 with the same bit pattern.
+var mathConsts = map[string]int64{
+	"MaxInt8": 1<<7 - 1, "MinInt8": -1 << 7, "MaxInt16": 1<<15 - 1, "MinInt16": -1 << 15,
+	"MaxInt32": 1<<31 - 1, "MinInt32": -1 << 31, "MaxInt64": 1<<63 - 1, "MinInt64": -1 << 63,
+	"MaxInt": 1<<63 - 1, "MinInt": -1 << 63,
+	"MaxUint8": 1<<8 - 1, "MaxUint16": 1<<16 - 1, "MaxUint32": 1<<32 - 1, "MaxUint64": -1, "MaxUint": -1,
+}
 
 func (p *pkgInfo) evalConst(e ast.Expr, depth int) (int64, bool) {
 	if depth > 20 {
@@ -155,6 +183,15 @@ func (p *pkgInfo) evalConst(e ast.Expr, depth int) (int64, bool) {
 	case *ast.Ident:
 		if c, ok := p.consts[e.Name]; ok {
 			return p.evalConst(c, depth+1)
+		}
+		return 0, false
+	case *ast.SelectorExpr: // the limits of the integer types (package math)
+		if id, ok := e.X.(*ast.Ident); ok && id.Name == "math" && p.imports["math"] {
+			if _, shadowed := p.consts["math"]; !shadowed {
+				if v, ok := mathConsts[e.Sel.Name]; ok {
+					return v, true
+				}
+			}
 		}
 		return 0, false
 	case *ast.CallExpr: // conversion T(x) to an integer type
